@@ -15,10 +15,28 @@ def sign1 (x : Rat) : Int := if x > 0 then 1 else if x = 0 then 0 else -1
 
 /-- `Round(N, digits)` with the value `e` that `floor(log10(|N|))` returned as a parameter
     (a rounded `log10` may return a neighbour of the exact exponent next to a power of ten:
-    `Admissible`).  As coded (after 710b478): the `digits > 7` guard, then the zero test, then
+    `Admissible`).  As coded (after 710b478, fbce818): the `digits > 7` guard, then the zero test, then
     `sign · (floor(|N|·10^(−e)·10^(digits−1) + 0.5) · 10^(−digits+1)) · 10^e`.
     `digits = 0` is outside the model (`digits − 1` wraps in `unsigned`); the driver answers `undef`. -/
 def roundSig (N : Rat) (d : Nat) (e : Int) : Except Err Rat :=
+  if d > 7 then .error .diag
+  else if N = 0 then .ok 0
+  else
+    let sign : Rat := (sign1 N : Int)
+    let a := N * sign
+    let pref := a * pow10 (-e)
+    let p : Rat := ((pref * pow10 ((d : Int) - 1) + 1 / 2).floor : Int)
+    -- fbce818: a carry to the next power of ten (9.96 → 10.0 for three digits) is written as
+    -- 1.00 times the next power: `if(prefactor >= pow(10.0, digits)) { prefactor /= 10.0; DecimalPower += 1.0; }`
+    let carry : Bool := decide (p ≥ pow10 (d : Int))
+    let p' : Rat := if carry then p / 10 else p
+    let e' : Int := if carry then e + 1 else e
+    .ok (sign * (p' * pow10 (-(d : Int) + 1)) * pow10 e')
+
+/-- `Round` as coded before fbce818 (no carry normalisation). Over exact rationals the carry branch
+    does not change the value (`round_carry_noop`); in double arithmetic `10.0·10^k` and
+    `1.0·10^(k+1)` are often different doubles, which made the old code not idempotent. -/
+def roundSigNoCarry (N : Rat) (d : Nat) (e : Int) : Except Err Rat :=
   if d > 7 then .error .diag
   else if N = 0 then .ok 0
   else
